@@ -573,7 +573,17 @@ emitFileName(EmitInfo finfo, FTypeNo ft)
 	FTypeNo			fto = ft;
 	int			i;
 
-	if (emitOutputFileName[ft])
+	if (emitInfoIsAXLmain(finfo)) {
+		/*
+		 * The generated main file has a name of its own: the one given
+		 * with -Fmain=<fn>, and never the -Fc=<fn>/-Fo=<fn> names, which
+		 * belong to the units being compiled.
+		 */
+		if ((ft == FTYPENO_C || ft == FTYPENO_AXLMAINC)
+		    && emitOutputFileName[FTYPENO_AXLMAINC])
+			return emitOutputFileName[FTYPENO_AXLMAINC];
+	}
+	else if (emitOutputFileName[ft])
 		return emitOutputFileName[ft];
 
 	if (emitInfoFname(finfo, ft))
